@@ -118,22 +118,6 @@ impl Property for C16 {
             sc.at(start, Op::SampleEvery { node: 0, period_ms: period, count: (span / period).min(4_000) as u32, table: false });
             sc.params.insert("polling".into(), 1);
         }
-        // further searches placed on the instants at which the bootstrap can complete: a bucket round
-        // ends when its 500 ms per-query time-out fires, so completions fall on a 500 ms grid shifted
-        // by the round trips that preceded. One search per millisecond over each such window: a search
-        // command served in the very loop turn in which the completion is noticed
-        if !big && n_silent > 0 && rng.chance(1, 6) {
-            let from = start + if sc.param("t_up") > 0 { sc.param("t_up") as u64 } else { 0 };
-            let width = (4 * sc.net.lat_max_ms).min(200);
-            let mut cnt = 0;
-            for k in 1..=5u64 {
-                for j in 0..=width {
-                    sc.at(from + 500 * k + j, Op::Search { node: 0, ih, announce: false });
-                    cnt += 1;
-                }
-            }
-            sc.params.insert("search_burst".into(), cnt);
-        }
         // a busy event loop: the node serves a stream of pings through a slow socket (each reply may
         // stall up to 300 ms) while it bootstraps, an application polls its state and issues a search
         // every 25 ms. Commands pile up behind the stalled loop, so state queries and searches are
@@ -269,9 +253,6 @@ impl Property for C16 {
         if sc.param("busy_loop") != 0 {
             v.hit("busy_event_loop");
         }
-        if sc.param("search_burst") != 0 {
-            v.hit("search_burst_across_completion");
-        }
         if sc.param("big") != 0 {
             v.hit("no_rebootstrap_network");
         }
@@ -283,12 +264,12 @@ impl Property for C16 {
         v
     }
     fn rule(&self) -> &'static str {
-        "static loss-free network of 1..9 answering stubs (each naming all others) holding 0..3 unique peers each plus 0..4 silent stubs, or (1 run in 4) 10..16 answering stubs so that the node never re-bootstraps, peers on the 8 closest to the info-hash; in a third of the runs an application polls get_state/load_contacts/local_addr every 1..5 ms while the node bootstraps; a fresh real node with 1..3 contacts (+ optionally a dead one); in one run of three every contact is silent until a drawn instant (0.5..25 s), so the first bootstrap attempts fail and searches fall into the back-off pauses; 1..4 searches issued 0 ms .. 40 s after start (with silent stubs, 1 run in 6: plus one search per millisecond over the windows in which a 500 ms bucket round can end) (with/without announce); 1 run in 12: a busy event loop (pings answered through a socket that stalls up to 300 ms, state polled every 21 ms and a search issued every 56 ms while the node bootstraps; judged for termination only); control = same search issued when bootstrapped() resolves. non-trivial = at least one search issued before bootstrap completion and the control search yields peers; distinct = distinct order digests"
+        "static loss-free network of 1..9 answering stubs (each naming all others) holding 0..3 unique peers each plus 0..4 silent stubs, or (1 run in 4) 10..16 answering stubs so that the node never re-bootstraps, peers on the 8 closest to the info-hash; in a third of the runs an application polls get_state/load_contacts/local_addr every 1..5 ms while the node bootstraps; a fresh real node with 1..3 contacts (+ optionally a dead one); in one run of three every contact is silent until a drawn instant (0.5..25 s), so the first bootstrap attempts fail and searches fall into the back-off pauses; 1..4 searches issued 0 ms .. 40 s after start (with/without announce); 1 run in 12: a busy event loop (pings answered through a socket that stalls up to 300 ms, state polled every 21 ms and a search issued every 56 ms while the node bootstraps; judged for termination only); control = same search issued when bootstrapped() resolves. non-trivial = at least one search issued before bootstrap completion and the control search yields peers; distinct = distinct order digests"
     }
     fn assumptions(&self) -> Vec<&'static str> {
         vec!["peer sets are compared as sets; the network is static and loss-free, as the property's comparison requires"]
     }
     fn required_reach(&self) -> Vec<&'static str> {
-        vec!["search_before_first_datagram", "several_early_searches", "slow_bootstrap", "search_after_bootstrap", "early_search_while_bootstrap_attempts_fail", "state_polled_during_bootstrap", "no_rebootstrap_network", "search_burst_across_completion", "busy_event_loop"]
+        vec!["search_before_first_datagram", "several_early_searches", "slow_bootstrap", "search_after_bootstrap", "early_search_while_bootstrap_attempts_fail", "state_polled_during_bootstrap", "no_rebootstrap_network", "busy_event_loop"]
     }
 }
